@@ -13,7 +13,8 @@ theorem C15_accept_iff (cfg : Cfg) (ks : KeySet) (ih : String) (now : Int) (t : 
     handleAnnounce cfg ks ih now (some t) = .accept ↔
       t.parses = true ∧ t.iss = some cfg.issuer ∧ (∃ l, t.aud = some l ∧ cfg.audience ∈ l) ∧ t.infohashClaim = some ih ∧
       (∃ kid k, t.kid = some kid ∧ lookupKey ks kid = some k ∧ t.algRS256 = true ∧ t.sigOK k = true) ∧
-      (∀ e, t.exp = some e → now ≤ e) ∧ (∀ n, t.nbf = some n → n ≤ now) := by
+      (∀ e, t.exp = some e → now ≤ e) ∧ (∀ n, t.nbf = some n → n ≤ now) ∧
+      t.expMalformed = false ∧ t.nbfMalformed = false := by
   unfold handleAnnounce
   simp only
   constructor
@@ -24,8 +25,8 @@ theorem C15_accept_iff (cfg : Cfg) (ks : KeySet) (ih : String) (now : Int) (t : 
       · simp [hv] at h
     unfold valid at hv
     simp only [Bool.and_eq_true, beq_iff_eq] at hv
-    obtain ⟨⟨⟨⟨⟨⟨h1, h2⟩, h3⟩, h4⟩, h5⟩, h6⟩, h7⟩ := hv
-    refine ⟨h1, h2, ?_, h4, ?_, ?_, ?_⟩
+    obtain ⟨⟨⟨⟨⟨⟨⟨⟨h1, h2⟩, h3⟩, h4⟩, h5⟩, h6⟩, h7⟩, h8⟩, h9⟩ := hv
+    refine ⟨h1, h2, ?_, h4, ?_, ?_, ?_, by simpa using h8, by simpa using h9⟩
     · cases ha : t.aud with
       | none => simp [ha] at h3
       | some l => simp only [ha] at h3; exact ⟨l, rfl, by simpa using h3⟩
@@ -38,18 +39,19 @@ theorem C15_accept_iff (cfg : Cfg) (ks : KeySet) (ih : String) (now : Int) (t : 
         | some k => simp only [hl, Bool.and_eq_true] at h5; exact ⟨kid, k, rfl, hl, h5.1, h5.2⟩
     · intro e he; simp only [he, decide_eq_true_eq] at h6; exact h6
     · intro n hn; simp only [hn, decide_eq_true_eq] at h7; exact h7
-  · intro ⟨h1, h2, ⟨l, hl, hmem⟩, h4, ⟨kid, k, hk, hlk, halg, hsig⟩, h6, h7⟩
+  · intro ⟨h1, h2, ⟨l, hl, hmem⟩, h4, ⟨kid, k, hk, hlk, halg, hsig⟩, h6, h7, h8, h9⟩
     have : valid cfg ks ih now t = true := by
       unfold valid
-      simp only [h1, h2, hl, h4, hk, hlk, halg, hsig, Bool.and_self, Bool.true_and, beq_self_eq_true, List.contains_iff_mem, hmem,
-        Bool.and_eq_true, decide_eq_true_eq]
-      refine ⟨⟨⟨⟨trivial, trivial⟩, trivial⟩, ?_⟩, ?_⟩
-      · cases he : t.exp with
+      have e6 : (match t.exp with | none => true | some e => decide (now ≤ e)) = true := by
+        cases he : t.exp with
         | none => rfl
         | some e => simp only [decide_eq_true_eq]; exact h6 e he
-      · cases hn : t.nbf with
+      have e7 : (match t.nbf with | none => true | some n => decide (n ≤ now)) = true := by
+        cases hn : t.nbf with
         | none => rfl
         | some n => simp only [decide_eq_true_eq]; exact h7 n hn
+      simp [h1, h2, hl, h4, hk, hlk, halg, hsig, h8, h9, hmem]
+      exact ⟨e6, e7⟩
     simp [this]
 
 /-- any single failing aspect ⇒ the one fixed client error; no token ⇒ the other fixed error; scrapes pass -/
@@ -68,7 +70,20 @@ theorem C15_validity_period (cfg : Cfg) (ks : KeySet) (ih : String) (now : Int) 
   · have := (C15_accept_iff cfg ks ih now t).mp ha
     rcases h with ⟨e, he, hlt⟩ | ⟨n, hn, hlt⟩
     · have := this.2.2.2.2.2.1 e he; omega
-    · have := this.2.2.2.2.2.2 n hn; omega
+    · have := this.2.2.2.2.2.2.1 n hn; omega
+  · exact hi
+
+/-- **D35**: a token whose `exp` or `nbf` claim is there but is no NumericDate — the number in quotes, `1e19`, `null` —
+has no validity period to be within and is refused, whatever else holds (the library's own check looks at
+numbers only and reads one beyond `int64` as a date in the distant past) -/
+theorem C15_malformed_period (cfg : Cfg) (ks : KeySet) (ih : String) (now : Int) (t : Token)
+    (h : t.expMalformed = true ∨ t.nbfMalformed = true) :
+    handleAnnounce cfg ks ih now (some t) = .invalid := by
+  rcases C15_reject cfg ks ih now t with ha | hi
+  · have := (C15_accept_iff cfg ks ih now t).mp ha
+    rcases h with h | h
+    · rw [this.2.2.2.2.2.2.2.1] at h; cases h
+    · rw [this.2.2.2.2.2.2.2.2] at h; cases h
   · exact hi
 
 /-- **Refreshes**: with key-set refreshes interleaved at operation granularity, every validation is
